@@ -365,28 +365,33 @@ class Doist(tyming.Tymist):
         else:
             deeds = deque()  # when doers is provided then don't use .deeds
 
-        for doer in doers:
-            try:
-                doer.done = False  # False at enter. False signals incomplete
-            except AttributeError:  # when using bound method for generator function
-                doer.__func__.done = False  # False at enter. False signals incomplete
+        try:
+            for doer in doers:
+                try:
+                    doer.done = False  # False at enter. False signals incomplete
+                except AttributeError:  # when using bound method for generator function
+                    doer.__func__.done = False  # False at enter. False signals incomplete
 
-            temp = temp or (doer.temp if hasattr(doer, "temp") and doer.temp else None)
-            opts = doer.opts if hasattr(doer, "opts") else {}
+                temp = temp or (doer.temp if hasattr(doer, "temp") and doer.temp else None)
+                opts = doer.opts if hasattr(doer, "opts") else {}
 
-            dog = doer(tymth=self.tymen(), tock=doer.tock, temp=temp, **opts)  # calls doer.do
-            try:
-                tock = dog.send(None)  # next(dog) run enter by advancing to first yield
-                # tock ignored on enter, so can't change tock until first recur
-            except StopIteration as ex:   # return not yield
-                # done in enter so assign done state
-                try:  # assign done state non forced return
-                    doer.done = ex.value if ex.value is not None else doer.done
-                except AttributeError:  # bount method generator
-                    # write to doer.__func__.done read from doer.done
-                    doer.__func__.done = ex.value if ex.value is not None else doer.done
-                continue  # don't append
-            deeds.append((dog, self.tyme, doer))  # first recur immediately
+                dog = doer(tymth=self.tymen(), tock=doer.tock, temp=temp, **opts)  # calls doer.do
+                try:
+                    tock = dog.send(None)  # next(dog) run enter by advancing to first yield
+                    # tock ignored on enter, so can't change tock until first recur
+                except StopIteration as ex:   # return not yield
+                    # done in enter so assign done state
+                    try:  # assign done state non forced return
+                        doer.done = ex.value if ex.value is not None else doer.done
+                    except AttributeError:  # bount method generator
+                        # write to doer.__func__.done read from doer.done
+                        doer.__func__.done = ex.value if ex.value is not None else doer.done
+                    continue  # don't append
+                deeds.append((dog, self.tyme, doer))  # first recur immediately
+        except Exception:  # enter failed so force exit doers already entered here
+            if deeds is not self.deeds:  # fresh deeds not reachable by .exit()
+                self.exit(deeds=deeds)
+            raise
         return deeds
 
 
@@ -1260,32 +1265,37 @@ class DoDoer(Doer):
         else:
             deeds = deque()
 
-        for doer in doers:
-            try:
-                doer.done = False  # False at enter. False signals incomplete
-            except AttributeError:   # when using bound method for generator function
-                doer.__func__.done = False  # False at enter.  False signals incomplete
-            temp = temp or (doer.temp if hasattr(doer, "temp") and doer.temp else None)
-            opts = doer.opts if hasattr(doer, "opts") else {}
+        try:
+            for doer in doers:
+                try:
+                    doer.done = False  # False at enter. False signals incomplete
+                except AttributeError:   # when using bound method for generator function
+                    doer.__func__.done = False  # False at enter.  False signals incomplete
+                temp = temp or (doer.temp if hasattr(doer, "temp") and doer.temp else None)
+                opts = doer.opts if hasattr(doer, "opts") else {}
 
-            dog = doer(tymth=self.tymth, tock=doer.tock, temp=temp, **opts)  # calls doer.do
-            try:
-                next(dog)  # run enter by advancing to first yield
-            except StopIteration as ex:  # return not yield
-                # done in enter so assign done state
-                try:  # assign done state non forced return
-                    doer.done = ex.value if ex.value is not None else doer.done
-                except AttributeError:  # bount method generator
-                    # write to doer.__func__.done read from doer.done
-                    doer.__func__.done = ex.value if ex.value is not None else doer.done
-                #try:
-                    #doer.done = ex.value if ex.value else False  # assign done state
-                #except AttributeError:
-                    #doer.__func__.done = ex.value if ex.value else False  # assign done state
+                dog = doer(tymth=self.tymth, tock=doer.tock, temp=temp, **opts)  # calls doer.do
+                try:
+                    next(dog)  # run enter by advancing to first yield
+                except StopIteration as ex:  # return not yield
+                    # done in enter so assign done state
+                    try:  # assign done state non forced return
+                        doer.done = ex.value if ex.value is not None else doer.done
+                    except AttributeError:  # bount method generator
+                        # write to doer.__func__.done read from doer.done
+                        doer.__func__.done = ex.value if ex.value is not None else doer.done
+                    #try:
+                        #doer.done = ex.value if ex.value else False  # assign done state
+                    #except AttributeError:
+                        #doer.__func__.done = ex.value if ex.value else False  # assign done state
 
 
-                continue  # don't append already complete
-            deeds.append((dog, self.tyme, doer))
+                    continue  # don't append already complete
+                deeds.append((dog, self.tyme, doer))
+        except Exception:  # enter failed so force exit doers already entered here
+            if deeds is not self.deeds:  # fresh deeds not reachable by .exit()
+                self.exit(deeds=deeds)
+            raise
         return deeds
 
 
